@@ -132,6 +132,15 @@ VARIANTS = {
                   '<dtml-var sequence-roman>,<dtml-var sequence-letter>,'
                   '<dtml-if sequence-even>e</dtml-if>'
                   '<dtml-else>EMPTY</dtml-in>',
+    # the flag forms render their body once, for the next / previous batch
+    'next-form': '<dtml-in s next start=st end=en size=sz orphan=orp '
+                 'overlap=ov>N<dtml-var next-sequence-start-number>;'
+                 '<dtml-var next-sequence-size><dtml-else>E</dtml-in>',
+    'previous-form': '<dtml-in s previous start=st end=en size=sz '
+                     'orphan=orp overlap=ov>P'
+                     '<dtml-var previous-sequence-start-number>;'
+                     '<dtml-var previous-sequence-size><dtml-else>E'
+                     '</dtml-in>',
     'literal': None,     # parameters written as integer literals
     'plain': '<dtml-in s start=st end=en size=sz orphan=orp overlap=ov>%s'
              '<dtml-else>EMPTY</dtml-in>',
@@ -177,10 +186,27 @@ def check(case):
         tkey = ('<dtml-in s start=%d end=%d size=%d orphan=%d overlap=%d>'
                 '%%s<dtml-else>EMPTY</dtml-in>' % (start, end, size, orphan,
                                                    overlap)) % BODY
+    elif variant in ('next-form', 'previous-form'):
+        tkey = VARIANTS[variant]
     elif variant:
         tkey = VARIANTS[variant] % BODY
     else:
         tkey = 'batch'
+    window = None
+    if variant in ('next-form', 'previous-form'):
+        # the window these forms refer to: from the plain rendering of the
+        # same parameters on a sequence of its own
+        s0, h0 = make_seq(seqkind, L)
+        try:
+            with cpu_limit(5.0):
+                plain = template('batch')(s=h0, st=start, en=end, sz=size,
+                                          orp=orphan, ov=overlap)
+        except BaseException:
+            return None
+        rows0 = ROW.findall(plain)
+        if not rows0:
+            return None
+        window = (int(rows0[0][0]), int(rows0[-1][0]), int(rows0[-1][1]))
     seqkind = 'lazy' if seqkind.startswith('lazy') else 'iter'
     try:
         with cpu_limit(5.0):
@@ -193,18 +219,21 @@ def check(case):
         return 'no-termination', '%r: more than 5 CPU-seconds' % case
     except Exception as e:
         return ('exception:%s' % type(e).__name__, '%r raised %r' % (case, e))
-    if out == 'EMPTY':
-        if L == 0:
-            return None
-        return 'empty', '%r rendered EMPTY' % case
-    rows = ROW.findall(out)
-    if not rows:
-        return 'unparsable', out[:200]
-    items = [int(r[0]) for r in rows]
-    first, last = items[0], items[-1]
-    if items != list(range(first, last + 1)):
-        return 'order', '%r displayed %r' % (case, items)
-    step = int(rows[-1][1])
+    if window is not None:
+        first, last, step = window
+    else:
+        if out == 'EMPTY':
+            if L == 0:
+                return None
+            return 'empty', '%r rendered EMPTY' % case
+        rows = ROW.findall(out)
+        if not rows:
+            return 'unparsable', out[:200]
+        items = [int(r[0]) for r in rows]
+        first, last = items[0], items[-1]
+        if items != list(range(first, last + 1)):
+            return 'order', '%r displayed %r' % (case, items)
+        step = int(rows[-1][1])
     bound = last + step + orphan
     # elements actually produced (a probe that runs off the end of a
     # bounded sequence produces nothing)
